@@ -16,6 +16,9 @@ pub struct Case {
     pub a: Vec<(f64, f64)>,
     pub d: Vec<(f64, f64)>,
     pub tol: f64,
+    /// the divisor carries the tolerance tol * 10^dtol_exp: quotient and remainder are formed under the dividend's
+    #[serde(default)]
+    pub dtol_exp: i8,
 }
 
 fn run_field<N: Fld>(case: &Case, mut o: Obs) -> Outcome {
@@ -54,7 +57,10 @@ fn run_field<N: Fld>(case: &Case, mut o: Obs) -> Outcome {
     let (na, nd) = (a.len(), d.len());
     o.label(if nd == 1 { "constant-divisor" } else if nd > na { "divisor-higher" } else { "generic" });
     let pa: Polynomial<N> = mk(&a, tol);
-    let pd: Polynomial<N> = mk(&d, tol);
+    let pd: Polynomial<N> = mk(&d, tol * 10f64.powi(case.dtol_exp as i32));
+    if case.dtol_exp != 0 {
+        o.label("divisor-with-its-own-tolerance");
+    }
     let (q, r) = match pa.divide(&pd) {
         Ok(x) => x,
         Err(e) => return o.fail(format!("divide returned Err({e}) for a non-zero divisor")),
@@ -172,13 +178,13 @@ pub fn run_case(case: &Case) -> Outcome {
 
 fn strategy(_t: Tier) -> BoxedStrategy<Case> {
     let kind = prop_oneof![6 => Just(0u8), 3 => Just(1u8), 1 => Just(2u8), 1 => Just(3u8), 1 => Just(4u8)];
-    (any::<bool>(), kind, coef_vec(41), coef_vec(21), gen::logu(-14.0, -8.0))
-        .prop_map(|(complex, kind, mut a, d, tol)| {
+    (any::<bool>(), kind, coef_vec(41), coef_vec(21), gen::logu(-14.0, -8.0), prop_oneof![6 => Just(0i8), 1 => Just(3i8), 1 => Just(-3i8)])
+        .prop_map(|(complex, kind, mut a, d, tol, dtol_exp)| {
             if kind == 1 {
                 // keep the product's degree <= 40
                 a.truncate(41 - d.len() + 1);
             }
-            Case { complex, kind, a, d, tol }
+            Case { complex, kind, a, d, tol, dtol_exp }
         })
         .boxed()
 }
@@ -191,14 +197,14 @@ pub fn run(opts: &Opts) -> i32 {
                 for kind in [0u8, 1] {
                     let a: Vec<(f64, f64)> = (0..la).map(|i| (1.0 + i as f64, 0.5 - i as f64)).collect();
                     let d: Vec<(f64, f64)> = (0..ld).map(|i| (2.0 - i as f64, 1.0 + 0.25 * i as f64)).collect();
-                    spec.enumerated.push(Case { complex, kind, a, d, tol: 1e-10 });
+                    spec.enumerated.push(Case { complex, kind, a, d, tol: 1e-10, dtol_exp: 0 });
                 }
             }
         }
     }
     spec.cases = opts.tier.pick(60_000, 2_000_000);
     spec.essential = vec![("generic", 0.3), ("exact-multiple", 0.1), ("constant-divisor", 0.02), ("divisor-higher", 0.05), ("zero-divisor", 0.05), ("complex", 0.3)];
-    spec.rule = "generated: dividends of length 1..41, divisors of length 1..21 (shapes as in C11, leading divisor coefficient forced to magnitude >= 0.1), real and complex, zero tolerance 10^[-14,-8]; classes: generic, exact multiple (q*d formed naively), divisor of higher degree, constant divisor, zero polynomial (both spellings), zero dividend. Oracle: a = q d + r reconstructed in naive harness arithmetic within 64 eps (|q|_1|d|_1 + |a|_1)(deg+1) + 1.5 tol per coefficient; deg r < deg d; exact multiples: remainder within the bound; constant divisor: scaled coefficients and zero remainder; zero divisor: Err. Non-trivial = deg a >= deg d >= 1. Distinct = distinct case JSON.".into();
+    spec.rule = "generated: dividends of length 1..41, divisors of length 1..21 (shapes as in C11, leading divisor coefficient forced to magnitude >= 0.1), real and complex, zero tolerance 10^[-14,-8] (a quarter of the divisors carry that tolerance x 1e3 or x 1e-3: quotient and remainder are formed under the dividend's); classes: generic, exact multiple (q*d formed naively), divisor of higher degree, constant divisor, zero polynomial (both spellings), zero dividend. Oracle: a = q d + r reconstructed in naive harness arithmetic within 64 eps (|q|_1|d|_1 + |a|_1)(deg+1) + 1.5 tol per coefficient; deg r < deg d; exact multiples: remainder within the bound; constant divisor: scaled coefficients and zero remainder; zero divisor: Err. Non-trivial = deg a >= deg d >= 1. Distinct = distinct case JSON.".into();
     spec.max_shrink_iters = 2000;
     run_spec(spec, opts)
 }
